@@ -1,7 +1,7 @@
 (* C12 - macro definition and expansion follow C11 6.10.3 on the implemented subset.
    Only statements, each closed by `exact`, with Print Assumptions beneath. *)
 From Coq Require Import List NArith Arith Bool String.
-From Cproc Require Import Model.PP Spec.MacroSpec Proofs.PPBasics Proofs.PPStringize Proofs.PPObj Proofs.PPFunc.
+From Cproc Require Import Model.PP Spec.MacroSpec Proofs.PPBasics Proofs.PPStringize Proofs.PPObj Proofs.PPFunc Proofs.PPInv.
 Import ListNotations.
 
 (* The string literal expandfunc() builds for a `#` parameter (opening quote, stringize() on every token of
@@ -50,6 +50,18 @@ Theorem C12_depth_counts_frames :
     depth s = List.length (ctx s) /\ NoDup (names (ctx s)).
 Proof. exact obj_depth_counts_frames. Qed.
 Print Assumptions C12_depth_counts_frames.
+
+(* The WHOLE machine (function-like macros, variadic, #, directives that define and undefine macros on the
+   way, any table without hidden macros, any source): in every state reachable through calls of next(),
+   macrodepth = number of macro frames on ctx, and every macro whose hide flag is set has a frame on ctx. *)
+Theorem C12_depth_counts_frames_general :
+  forall tb l s,
+    (forall n m, macroget tb n = Some m -> mhide m = false) ->
+    reach tb l s ->
+    depth s = List.length (mnames (ctx s)) /\
+    (forall n m, macroget (tbl s) n = Some m -> mhide m = true -> In n (mnames (ctx s))).
+Proof. exact depth_counts_frames_general. Qed.
+Print Assumptions C12_depth_counts_frames_general.
 
 (* A painted token (token.hide) is never expanded again, whatever the table and the state. *)
 Theorem C12_painted_never_expanded :
